@@ -240,3 +240,32 @@ def _version_source_ok(s, g, fi, reads, locked_regions, assigns):
     if isinstance(s, ast.Name) and s.id in [a.arg for a in fi.node.args.args]:
         return True, 'is a parameter (checked at the caller)'
     return False, f'comes from {unparse(s)}, which is neither a locked read nor a snapshot result'
+
+
+from selftest import seed  # noqa: E402
+
+_G = 'src/sdc11073/provider/porttypes/getserviceimpl.py'
+_C = 'src/sdc11073/provider/porttypes/contextserviceimpl.py'
+_B = 'src/sdc11073/mdib/mdibbase.py'
+SEEDS = [
+    seed('GetMdState: version read after the region', 'C07.R1',
+         (_G, "            mdib_version_group = self._mdib.mdib_version_group\n\n        factory = self._sdc_device.msg_factory",
+          "\n        mdib_version_group = self._mdib.mdib_version_group\n        factory = self._sdc_device.msg_factory")),
+    seed('GetContextStates: version read in a second region', 'C07.R1',
+         (_C, "            mdib_version_group = self._mdib.mdib_version_group\n\n        response = data_model.msg_types.GetContextStatesResponse()",
+          "        with self._mdib.mdib_lock:\n            mdib_version_group = self._mdib.mdib_version_group\n\n        response = data_model.msg_types.GetContextStatesResponse()")),
+    seed('GetMdib: version from the live mdib instead of the snapshot', 'C07.R1',
+         (_G, "        response.set_mdib_version_group(mdib_version_group)\n        response.Mdib = mdib_node",
+          "        response.set_mdib_version_group(self._mdib.mdib_version_group)\n        response.Mdib = mdib_node")),
+    seed('GetMdDescription: lock removed', 'C07.R1',
+         (_G, "        with mdib.mdib_lock:  # version, handle check and content must come from the same mdib version\n", "        if True:\n")),
+    seed('reconstruct_mdib: version read after the lock', 'C07.R2',
+         (_B, "        with self.mdib_lock:\n            return self._reconstruct_mdib(add_context_states=False), self.mdib_version_group",
+          "        with self.mdib_lock:\n            node = self._reconstruct_mdib(add_context_states=False)\n        return node, self.mdib_version_group")),
+    seed('writer releases mdib_lock before commit', 'C07.R3',
+         ('src/sdc11073/mdib/providermdib.py', "        with self._tr_lock, self.mdib_lock:\n            try:\n                self.current_transaction",
+          "        with self._tr_lock:\n            try:\n                self.current_transaction")),
+    seed('control: hoist data_model lookup', 'C07.R1',
+         (_G, "        factory = self._sdc_device.msg_factory\n        response = data_model.msg_types.GetMdStateResponse()",
+          "        response = data_model.msg_types.GetMdStateResponse()\n        factory = self._sdc_device.msg_factory"), control=True),
+]
